@@ -20,6 +20,53 @@ def facts_factx(repo, lean):
     return info
 
 
+def facts_c04(repo, lean):
+    """C04: the factx table (receiver kinds) AND the long-tail frame table: harness/cmd/framegen enumerates every exported
+    function / method / instance variable of the library whose signature mentions caller-visible memory, regenerates the
+    call wrappers of harness/cmd/frame (harness/cmd/frame/gen/*, zz_imports_gen.go; not under version control) and
+    FpVerif/Gen/FrameFacts.lean (Spec/C04Frame decides that every entry is covered or explicitly listed)."""
+    info = facts_factx(repo, lean)
+    if info.get('error'):
+        return info
+    out = os.path.join(lean, 'FpVerif', 'Gen', 'FrameFacts.lean')
+    harness = os.path.join(os.path.dirname(lean), 'harness')
+    env = dict(os.environ, GOFLAGS='-mod=mod', GOPROXY='off', GOSUMDB='off', GOTOOLCHAIN='local')
+    tmp_out = out + '.new'
+    p = subprocess.run(['go', 'run', './cmd/framegen', repo, os.path.join(harness, 'cmd', 'frame'), tmp_out], cwd=harness, env=env,
+                       stdout=subprocess.PIPE, stderr=subprocess.STDOUT, text=True)
+    if p.returncode != 0 or not os.path.exists(tmp_out):
+        if os.path.exists(out):
+            os.remove(out)
+        return dict(error='framegen failed: ' + p.stdout[-800:], obligations=2)
+    # keep the old file (and its build products) when the table did not change
+    if not os.path.exists(out) or open(out).read() != open(tmp_out).read():
+        os.replace(tmp_out, out)
+    else:
+        os.remove(tmp_out)
+    info['frame'] = json.loads(p.stdout.strip().split('\n')[-1])
+    info['obligations'] = 2
+    info['generated'] = 'FpVerif/Gen/Facts.lean, FpVerif/Gen/FrameFacts.lean, harness/cmd/frame/gen/*'
+    return info
+
+
+
+
+import re as _re
+
+def project_future(line):
+    """property-level part of a future scenario answer: the statuses in the LAST snapshot (after the scenario's final drain)
+    and the multiset of user-callback / observer events; pool sizes, intermediate snapshots and the order of independent
+    callbacks are implementation-level (task structure)"""
+    snaps, _, log = line.partition(' | ')
+    last = snaps.split(' ; ')[-1]
+    statuses = sorted(t for t in last.split(' ') if '=' in t and not t.startswith('pool='))
+    return (tuple(statuses), tuple(sorted(log.split(','))))
+
+def project_iter(line):
+    """property-level part of an iterator script answer: the values / panics per step; cumulative pull counts (#n) and the
+    event trace {...} are implementation-level (exact look-ahead) - the laziness bound itself is a direct check"""
+    return _re.sub(r'#\d+', '', _re.sub(r'\{[^{}]*\}', '', line))
+
 # the thorough sizes below finish in 5-30 s on 16 cores; the thorough tier multiplies them (a few minutes per check)
 THOROUGH_SCALE = int(os.environ.get('VERIF_THOROUGH_SCALE', '4'))
 
@@ -37,7 +84,7 @@ ARITY_H = H('arity', 'oracle_arity', 8000, 400000, spec_level=True, nontrivial=l
 CHECKS = {
     'C01': dict(
         spec=['FpVerif.Spec.C01', 'FpVerif.Spec.C01Inst', 'FpVerif.Spec.C01T', 'FpVerif.Spec.C16'],
-        harnesses=MONAD_H + [TRYOPT_H, ARITY_H, H('iter', 'oracle_iter', 4000, 400000, spec_level=True, extra=dict(quick=['-prop', 'C12'], thorough=['-prop', 'C12'])),
+        harnesses=MONAD_H + [TRYOPT_H, ARITY_H, H('iter', 'oracle_iter', 4000, 400000, spec_level=True, project=project_iter, extra=dict(quick=['-prop', 'C12'], thorough=['-prop', 'C12'])),
                              H('eval', 'oracle_eval', 2000, 100000, spec_level=True, extra=dict(quick=['-deep', '20000'], thorough=['-deep', '200000']))],
         level='proof',
         modelled='X_monad.go + X_traverse.go of option/try/either/statet (one generic model of the generator template, '
@@ -54,7 +101,7 @@ CHECKS = {
         spec=['FpVerif.Spec.C02'],
         harnesses=MONAD_H + [TRYOPT_C02_H, ARITY_H, H('statet', 'oracle_statet', 3000, 100000, spec_level=True),
                              # future.Apply/Apply2 panic capture, future builders' suppliers after a failure
-                             H('future', 'oracle_future', 2000, 100000, spec_level=True)],
+                             H('future', 'oracle_future', 2000, 100000, spec_level=True, project=project_future)],
         level='proof',
         modelled='as C01; in addition try.Of/Call/CallUnit (recover -> tryCatch), Recover*/Or*/OrElse* of fp.Try/fp.Option/fp.StateT. '
                  'future.Apply/Apply2: C06.',
@@ -71,21 +118,41 @@ CHECKS = {
                      'zero-value UnsafeGoMap/UnsafeGoSet fallbacks: correspondence + direct checks only'],
     ),
     'C04': dict(
-        spec=['FpVerif.Spec.C04Seq', 'FpVerif.Spec.C04Facts', 'FpVerif.Spec.C03'],
-        facts=facts_factx,
-        harnesses=[H('seqheap', 'oracle_seqheap', 3000, 150000), H('hamt', 'oracle_hamt', 40000, 4000000)],
+        spec=['FpVerif.Spec.C04Seq', 'FpVerif.Spec.C04Facts', 'FpVerif.Spec.C04Frame', 'FpVerif.Spec.C03'],
+        facts=facts_c04,
+        harnesses=[H('seqheap', 'oracle_seqheap', 4000, 200000),
+                   H('frame', None, 60000, 3000000, nontrivial=lambda op, impl: op.count('(') >= 2),
+                   H('hamt', 'oracle_hamt', 40000, 4000000)],
         level='proof',
         level_note='trusted: Lean kernel (propext/Classical.choice/Quot.sound only); model fidelity checked by correspondence (alias class = which backing '
                    'array and offset, and contents, of every result; plus the direct check that no backing array ever seen changes over its full capacity). '
-                   'fp.Seq / package seq at backing-array level (theorem persistent) and value-receiver facts for Option/Try/tuples/Seq; immutable Map/Set: the '
+                   'fp.Seq / package seq / MergeSeq, MergeSlice / Iterator.ToSeq at backing-array level: the model writes the Go bodies over make / append / s[i]=x '
+                   'where append DOES write in place when the capacity suffices; theorems frame_step, persistent, arrays_persistent, fresh_disjoint (Spec.C04Seq). '
+                   'LONG TAIL (model-free): harness/cmd/framegen enumerates from the current sources every exported function / method / instance variable whose '
+                   'signature mentions a slice, fp.Seq, Go map, pointer, one of the collections, or a function / instance over those (all packages except mutable, '
+                   'commands, tests, internal, codegen tooling), generates a call wrapper for each (instantiated at int and, where an element instance matters, at a '
+                   'struct-with-slice), and harness/cmd/frame runs branching histories of them over a pool of live slices (overlapping windows with spare capacity, '
+                   'sub-slices, nil, empty-with-capacity), Go maps and pointers: after EVERY library call every backing array / map / pointee ever seen is compared '
+                   'over its full capacity with its snapshot; results and callback arguments join the pool; package clone must return fresh storage. '
+                   'Spec.C04Frame (regenerated table FpVerif/Gen/FrameFacts.lean): every enumerated entry is covered by a registered wrapper or is one of the '
+                   'explicitly listed exceptions (higher members of numbered arity families, 3 named functions). '
+                   'Value-receiver facts for Option/Try/tuples/Seq (Spec.C04Facts); immutable Map/Set: the '
                    'value-level HAMT model is persistent by construction, so the Lean theorems (Spec.C03) do not speak about Go pointer sharing — PARTIAL there: '
                    'node sharing, the in-place builder path and builder-after-Build are tied by the hamt harness, which keeps every version of a branching history '
                    'alive and re-reads all of them after every later operation (shape + content), plus model-free persistence checks.',
-        modelled='seq.go (Widen, Init, Tail, Take, Drop, Filter, FilterNot, Map, Add, Append, Concat, Reverse), seq/seq_op.go (Sort, Distinct, Scan, Span, '
-                 'Partition, Map, Flatten, Collect; Fold/FoldTry/Reduce/Min/Max/GroupBy/Zip/ZipWithIndex/ToGoSet and iterator.Sort/ToSeq as non-writing calls); '
-                 'facts: receiver kinds of all methods of Option, Try, TupleN, LabelledN, Seq.',
+        modelled='seq.go (Widen, Init, Tail, UnSeq, Take, Drop, Filter, FilterNot, Map, FlatMap, Add, Append, Concat, Reverse), seq/seq_op.go (Sort, Distinct, Scan, Span, '
+                 'Partition, Map, FlatMap, Flatten, Ap, Map2, FilterMap, Concat, Of, Pure, Collect, Reduce; Fold/FoldTry/Min/Max/GroupBy/Zip/ZipWithIndex/ToGoSet as '
+                 'non-writing calls), monoid.MergeSeq / MergeSlice (Combine, Empty), Iterator.ToSeq / iterator.ToSeq / ToSlice over FromSeq/FromSlice, Option.ToSeq / '
+                 'option.ToSeq as programs over make/append/index-assignment; the remaining exported surface (about 840 functions, see coverage.facts.frame) through '
+                 'generated wrappers, model-free; facts: receiver kinds of all methods of Option, Try, TupleN, LabelledN, Seq.',
         assumptions=['Go slices: a write through one slice is visible through every slice sharing its backing array; append growth policy is not modelled '
-                     '(fresh arrays are compared by identity and contents, not capacity)'],
+                     '(fresh arrays are compared by identity and contents, not capacity)',
+                     'frame check: a parameter named buf of an Append-style function (Go AppendXxx(buf, ...) convention: Show.Append, show.Append*) is an '
+                     'out-buffer owned by the callee and receives a private slice; a pointer RECEIVER may write its own pointee (Option.UnmarshalJSON); '
+                     'iterators, lazy values, futures and HAMT nodes are opaque to the reflection walk (closures / internal cells): their results are observed '
+                     'by draining them; tasks handed to executors run inline (verif spawn hook)',
+                     'generics are instantiated at int (and Rec{ID int; Xs []int} where an element instance is a parameter); arity families are covered up to '
+                     'arity 5'],
     ),
     'C05': dict(
         spec=['FpVerif.Spec.C05'],
@@ -116,7 +183,7 @@ CHECKS = {
     ),
     'C06': dict(
         spec=['FpVerif.Spec.C06', 'FpVerif.Spec.C06Sound', 'FpVerif.Spec.C06Live', 'FpVerif.Spec.C06Chain'],
-        harnesses=[H('future', 'oracle_future', 3000, 150000, spec_level=True)],
+        harnesses=[H('future', 'oracle_future', 3000, 150000, spec_level=True, project=project_future)],
         level='proof',
         level_note='trusted: Lean kernel (propext/Classical.choice/Quot.sound only); model fidelity checked by correspondence (statuses of every future, '
                    'callback log and pool size compared after EVERY scenario under the same schedule, i.e. the task structure itself is compared). '
@@ -138,7 +205,7 @@ CHECKS = {
     ),
     'C12': dict(
         spec=['FpVerif.Spec.C12', 'FpVerif.Spec.C12List'],
-        harnesses=[H('iter', 'oracle_iter', 8000, 800000, spec_level=True,
+        harnesses=[H('iter', 'oracle_iter', 8000, 800000, spec_level=True, project=project_iter,
                      extra={'quick': ['-prop', 'C12'], 'thorough': ['-prop', 'C12']})],
         level='proof',
         modelled='iterator.go (all methods), iterator/iterator_op.go (sources, Map, FilterMap, FlatMap, Zip*, Scan, '
@@ -156,7 +223,7 @@ CHECKS = {
     ),
     'C20': dict(
         spec=['FpVerif.Spec.C20'],
-        harnesses=[H('iter', 'oracle_iter', 8000, 800000, spec_level=True,
+        harnesses=[H('iter', 'oracle_iter', 8000, 800000, spec_level=True, project=project_iter,
                      extra={'quick': ['-prop', 'C20'], 'thorough': ['-prop', 'C20']})],
         level='proof',
         modelled='fp.Iterator protocol for every source/combinator of iterator.go + iterator/iterator_op.go (same models as '
@@ -173,7 +240,7 @@ CHECKS = {
                    H('tc', 'oracle_tc', 1500, 100000, spec_level=True),
                    H('clone', 'oracle_clone', 2000, 100000, spec_level=True),
                    # future ChainN/ApplicativeN builders and the func_gen.go families: derived programs over the network model of C06
-                   H('future', 'oracle_future', 3000, 150000, spec_level=True)],
+                   H('future', 'oracle_future', 3000, 150000, spec_level=True, project=project_future)],
         level='proof',
         modelled='future ChainN/MonadChainN, ApplicativeN/ApplicativeFunctorN (every method at every receiver arity 1..9, in one go or staged), LiftAN, '
                  'LiftMN, FlapN, MethodN, FlatMethodN, FuncN, UnitN, ComposeN, Zip/Zip3 - each modelled ONCE, arity-generically, as derived programs over '
